@@ -38,6 +38,20 @@ class TickRecorder:
                     self.bnd.add(st.start_offset)
         self.cur = None
         self.truncated = False
+        self.traps = []                # trap names in order, through an instance-level wrapper of cpu._trap
+        self._wrapped = False
+
+    def wrap(self, cpu):
+        if self._wrapped:
+            return
+        self._wrapped = True
+        orig = cpu._trap
+        rec = self
+
+        def _trap(code, **kw):
+            rec.traps.append(code.name)
+            return orig(code, **kw)
+        cpu._trap = _trap
 
     def _seg(self, seg):
         k = id(seg)
@@ -48,12 +62,14 @@ class TickRecorder:
 
     def before(self, cpu, instr, operands, rec):
         self.cur = None
+        self.wrap(cpu)
+        self._ntr = len(self.traps)
         if len(self.ticks) >= self.maxticks:
             self.truncated = True
             return
         if instr is None:
             self.cur = {'pc': cpu.pc, 'ins': {'b': 'invalid', 't': '', 'a': [], 'dev': '', 'dop': ''}, 'top': [], 'n': 0,
-                        'd0': len(cpu.stack), 'bnd': False, 'callproc': False, 'st': [], 'rdt': '', '_w': []}
+                        'd0': len(cpu.stack), 'bnd': False, 'callproc': False, 'st': [], 'rdt': '', '_w': [], 'vals': []}
             return
         b, t = split_op(instr.op)
         st = cpu.stack
@@ -70,8 +86,21 @@ class TickRecorder:
             top = [tl(c) for c in reversed(st[-(n + 6):])]
         if b == 'frame' and len(top) < operands[0] + 2:
             top = [tl(c) for c in reversed(st[-(operands[0] + 2):])]
+        vals = []
+        for c in reversed(st[-3:]):
+            tn = c.type.name
+            if tn in ('INTEGER', 'LONG'):
+                v = int(c.value)
+                vals.append(['i', v if -2 ** 31 <= v < 2 ** 31 else (2 ** 31 - 1 if v > 0 else -2 ** 31)])
+            elif tn in ('SINGLE', 'DOUBLE'):
+                x = c.value
+                vals.append(['f', 0 if x == 0 else (1 if x > 0 else (-1 if x < 0 else 2))])
+            elif tn == 'STRING':
+                vals.append(['s', len(c.value)])
+            else:
+                vals.append(['r', 0])
         cur = {'pc': cpu.pc, 'ins': ins, 'top': top, 'n': n, 'd0': len(st), 'bnd': cpu.pc in self.bnd,
-               'callproc': False, 'st': [], 'rdt': '', '_w': []}
+               'callproc': False, 'st': [], 'rdt': '', '_w': [], 'vals': vals}
         try:
             if b == 'call':
                 ti = cpu.get_instruction_at(operands[0])[0]
@@ -114,7 +143,12 @@ class TickRecorder:
         trap = ''
         if cpu.halted and cpu.halt_reason == self._HR.TRAP and cpu.last_trap is not None:
             trap = cpu.last_trap.name
+        new_traps = self.traps[self._ntr:]
+        cur['handled'] = bool(new_traps) and not trap
+        # the trap this instruction raised (the halting trap may be a later one, e.g. CANNOT_RESUME)
+        trap_seen = new_traps[0] if new_traps else trap
         cur['trap'] = trap
+        cur['trapseen'] = trap_seen
         cur['halt'] = bool(cpu.halted)
         if not trap:
             for d, idx, t in cur['_w']:
